@@ -147,6 +147,11 @@ impl Session {
                 let payload_len = encrypted_data.as_bytes().len();
                 if payload_len > max_payload_len as usize + MHDR_LEN + MIC_LEN {
                     info!("Dropping oversized payload.");
+                    if ignore_mac {
+                        // Heard while listening in RXC: the frame does not belong to the receive
+                        // procedure of an uplink, so there is no procedure to end.
+                        return Response::NoUpdate;
+                    }
                     return self.rx2_complete(configuration, region);
                 }
             }
